@@ -196,6 +196,7 @@ def env_for(root, nthreads=1):
     e["VT_ROOT"] = root
     e["VT_REPO"] = REPO
     e["HDF5_USE_FILE_LOCKING"] = "FALSE"
+    e["PYTHONWARNINGS"] = "ignore"
     return e
 
 
